@@ -98,15 +98,26 @@ Section Verify.
   Variable sig_ok : str -> list N -> str -> bool.
   Variable now_s : Z.
 
+  (** other_headers as gpg_verify reads it *)
+  Definition sig_headers (sig : json) : str := match jget S_other_headers sig with Some (JStr o) => o | _ => [] end.
+
+  (** the value the oracle is asked about for a gpg entry: signature and other_headers (the signed digest covers both) *)
+  Definition gpg_outcome (tok : str) (msg : list N) (sval oh : str) : res bool :=
+    if Nat.even (length oh) then Ok (sig_ok tok msg (gpg_sig_value sval oh)) else Err EValueError.
+
   Lemma gpg_verify_eq : forall sig key msg skid mkid sval,
     jstr_of (jget S_keyid sig) = Some skid -> jstr_of (jget S_keyid key) = Some mkid ->
     jstr_of (jget S_signature sig) = Some sval ->
     gpg_verify sig_ok now_s sig key msg =
-      if gpg_live now_s (snd (gpg_sel key skid mkid)) then Ok (sig_ok (fst (gpg_sel key skid mkid)) msg sval)
-      else Err EKeyExpired.
+      if negb (gpg_sig_schema_ok sig) then Err EFormat
+      else if gpg_live now_s (snd (gpg_sel key skid mkid))
+           then gpg_outcome (fst (gpg_sel key skid mkid)) msg sval (sig_headers sig)
+           else Err EKeyExpired.
   Proof.
     intros sig key msg skid mkid sval H1 H2 H3. unfold gpg_verify. rewrite H1, H2, H3.
-    fold (gpg_sel key skid mkid). unfold gpg_live.
+    destruct (negb (gpg_sig_schema_ok sig)); [reflexivity|].
+    fold (gpg_sel key skid mkid). fold (sig_headers sig). cbv zeta.
+    fold (gpg_outcome (fst (gpg_sel key skid mkid)) msg sval (sig_headers sig)). unfold gpg_live.
     destruct (jget S_creation_time (snd (gpg_sel key skid mkid))) as [[| |c| | | |]|];
     destruct (jget S_validity_period (snd (gpg_sel key skid mkid))) as [[| |v| | | |]|]; try reflexivity.
     destruct (negb (Z.eqb c 0) && negb (Z.eqb v 0) && Z.ltb (c + v) now_s)%bool; reflexivity.
@@ -153,7 +164,7 @@ Section Verify.
   Definition entry_token (key sig : json) : option (str * str) :=
     if (has S_signature sig && has S_other_headers sig)%bool then
       match jstr_of (jget S_keyid sig), jstr_of (jget S_keyid key), jstr_of (jget S_signature sig) with
-      | Some skid, Some mkid, Some sval => Some (fst (gpg_sel key skid mkid), sval)
+      | Some skid, Some mkid, Some sval => Some (fst (gpg_sel key skid mkid), gpg_sig_value sval (sig_headers sig))
       | _, _, _ => None
       end
     else
@@ -167,16 +178,14 @@ Section Verify.
   Proof.
     intros key sig msg H. unfold entry_verdict in H. unfold entry_token.
     destruct (has S_signature sig && has S_other_headers sig)%bool.
-    - unfold gpg_verify in H.
-      destruct (jstr_of (jget S_keyid sig)) as [skid|]; [|discriminate H].
-      destruct (jstr_of (jget S_keyid key)) as [mkid|]; [|discriminate H].
-      destruct (jstr_of (jget S_signature sig)) as [sval|]; [|discriminate H].
-      fold (gpg_sel key skid mkid) in H.
-      exists (fst (gpg_sel key skid mkid)), sval. split; [reflexivity|].
-      destruct (jget S_creation_time (snd (gpg_sel key skid mkid))) as [[| |c| | | |]|];
-      destruct (jget S_validity_period (snd (gpg_sel key skid mkid))) as [[| |v| | | |]|];
-        try (inversion H; reflexivity).
-      destruct (negb (Z.eqb c 0) && negb (Z.eqb v 0) && Z.ltb (c + v) now_s)%bool; [discriminate H|].
+    - destruct (jstr_of (jget S_keyid sig)) as [skid|] eqn:E1; [|unfold gpg_verify in H; rewrite E1 in H; discriminate H].
+      destruct (jstr_of (jget S_keyid key)) as [mkid|] eqn:E2; [|unfold gpg_verify in H; rewrite E1, E2 in H; discriminate H].
+      destruct (jstr_of (jget S_signature sig)) as [sval|] eqn:E3; [|unfold gpg_verify in H; rewrite E1, E2, E3 in H; discriminate H].
+      rewrite (gpg_verify_eq sig key msg skid mkid sval E1 E2 E3) in H.
+      destruct (negb (gpg_sig_schema_ok sig)); [discriminate H|].
+      destruct (gpg_live now_s (snd (gpg_sel key skid mkid))); [|discriminate H].
+      unfold gpg_outcome in H. destruct (Nat.even (length (sig_headers sig))); [|discriminate H].
+      exists (fst (gpg_sel key skid mkid)), (gpg_sig_value sval (sig_headers sig)). split; [reflexivity|].
       inversion H; reflexivity.
     - destruct (sslib_verify_true sig key msg H) as [kid [pub [sval [kv [_ [_ [E3 [E4 [E5 E6]]]]]]]]].
       rewrite E3, E4, E5. exists pub, sval. split; [reflexivity|exact E6].
@@ -299,14 +308,35 @@ Section Verify.
     apply forallb_forall. intros s Hs. destruct (Hstr s Hs) as [k ->]. reflexivity.
   Qed.
 
+  (** a gpg signature entry as securesystemslib's schema wants it: key id, signature and other_headers are
+      non-empty hex text; other_headers holds whole bytes (unhexlify) *)
+  Definition gpg_entry_ok (sk sval hd : str) : bool :=
+    is_hex sk && is_hex sval && is_hex hd && Nat.even (length hd).
+
+  Lemma gpg_entry_schema : forall sk sval hd, gpg_entry_ok sk sval hd = true ->
+    gpg_sig_schema_ok (gpg_entry sk sval hd) = true /\ Nat.even (length hd) = true.
+  Proof.
+    intros sk sval hd H. unfold gpg_entry_ok in H.
+    apply andb_true_iff in H. destruct H as [H H4]. apply andb_true_iff in H. destruct H as [H H3].
+    apply andb_true_iff in H. destruct H as [H1 H2]. split; [|exact H4].
+    unfold gpg_sig_schema_ok.
+    replace (jget S_keyid (gpg_entry sk sval hd)) with (Some (JStr sk)) by reflexivity.
+    replace (jget S_signature (gpg_entry sk sval hd)) with (Some (JStr sval)) by reflexivity.
+    replace (jget S_other_headers (gpg_entry sk sval hd)) with (Some (JStr hd)) by reflexivity.
+    replace (jget S_short_keyid (gpg_entry sk sval hd)) with (@None json) by reflexivity.
+    rewrite H1, H2, H3. reflexivity.
+  Qed.
+
   Theorem verify_mb_first_gpg : forall old rest p key mkid sk sval hd msg,
     gpg_key_for now_s key mkid sk ->
     (forall s, In s old -> sig_matches key s = false) ->
     signable_bytes (payload_asdict p) = Ok msg ->
+    gpg_entry_ok sk sval hd = true ->
     verify_signature sig_ok now_s (Metablock (old ++ gpg_entry sk sval hd :: rest) p) key =
-      if sig_ok sk msg sval then Ok tt else Err ESignature.
+      if sig_ok sk msg (gpg_sig_value sval hd) then Ok tt else Err ESignature.
   Proof.
-    intros old rest p key mkid sk sval hd msg [Hc [Hk [Hsk Hlive]]] Hold Hm.
+    intros old rest p key mkid sk sval hd msg [Hc [Hk [Hsk Hlive]]] Hold Hm Hok.
+    destruct (gpg_entry_schema sk sval hd Hok) as [Hschema Heven].
     cbn [verify_signature]. rewrite Hc. cbn [bind]. rewrite Hk.
     rewrite (find_matches key mkid _ Hk).
     rewrite (find_app_skip _ (sig_matches key) old _ Hold). cbn [find].
@@ -317,8 +347,11 @@ Section Verify.
     unfold signed_bytes_mb. rewrite Hm. cbn [bind].
     replace (has S_signature (gpg_entry sk sval hd) && has S_other_headers (gpg_entry sk sval hd))%bool with true by reflexivity.
     rewrite (gpg_verify_eq (gpg_entry sk sval hd) key msg sk mkid sval eq_refl Hk eq_refl).
-    rewrite Hlive, (gpg_sel_fst key mkid sk Hsk). cbn [bind].
-    destruct (sig_ok sk msg sval); reflexivity.
+    rewrite Hschema. cbn [negb].
+    rewrite Hlive, (gpg_sel_fst key mkid sk Hsk).
+    replace (sig_headers (gpg_entry sk sval hd)) with hd by reflexivity.
+    unfold gpg_outcome. rewrite Heven. cbn [bind].
+    destruct (sig_ok sk msg (gpg_sig_value sval hd)); reflexivity.
   Qed.
 
   (** Envelope: any matching entry suffices *)
@@ -494,14 +527,15 @@ Section Signing.
     gpg_key_for now_s key mkid sk ->
     signable_bytes (payload_asdict p) = Ok msg ->
     (forall s, In s old -> sig_matches key s = false) ->
-    sig_ok sk msg (sign sk msg) = true ->
+    gpg_entry_ok sk (sign sk msg) hd = true ->
+    sig_ok sk msg (gpg_sig_value (sign sk msg) hd) = true ->
     exists md', create_signature sign (Metablock old p) (SgGpg sk hd) = Ok md' /\
                 verify_signature sig_ok now_s md' key = Ok tt.
   Proof.
-    intros old p mkid sk hd key msg Hkey Hm Hold Hs.
+    intros old p mkid sk hd key msg Hkey Hm Hold Hok Hs.
     eexists. split; [apply create_signature_mb; exact Hm|].
     rewrite entry_of_gpg.
-    rewrite (verify_mb_first_gpg sig_ok now_s old [] p key mkid sk _ hd msg Hkey Hold Hm), Hs. reflexivity.
+    rewrite (verify_mb_first_gpg sig_ok now_s old [] p key mkid sk _ hd msg Hkey Hold Hm Hok), Hs. reflexivity.
   Qed.
 
   Theorem sign_verify_env : forall pb pt old parsed kid pub key,
